@@ -478,6 +478,8 @@ vfa([], []).
 vfa([G|Gs], [L|Ls]) :- catch(findall(G, G, L), error(E, _), L = err(E)), vfa(Gs, Ls).
 vw([]).
 vw([T|Ts]) :- writeq(T), nl, vw(Ts).
+vrl([], []).
+vrl([X|Xs], [V|Vs]) :- V = X, vrl(Xs, Vs).
 vrt([], []).
 vrt([T|Ts], [R|Rs]) :-
 	open('c18_rt.txt', write, S), writeq(S, T), write(S, ' .'), nl(S), close(S),
@@ -554,7 +556,12 @@ func (g *c18Gen) item(family string, calls []*term.Term) *Item {
 	dump(m.Queries[0])
 	for i, call := range calls {
 		k := addInput(call)
-		c.Steps = append(c.Steps, proto.Step{Query: fmt.Sprintf("verif_in(%d, G), call(G).", k), Max: c18Max})
+		if es, tail := term.ListElems(call.Args[2]); call.IsCmp("op", 3) && tail.IsAtom("[]") && len(es) > 0 && (i+len(calls))%3 == 0 {
+			// the same call with every element of the list of names reached through a variable binding
+			c.Steps = append(c.Steps, proto.Step{Query: fmt.Sprintf("verif_in(%d, G), '='(G, op(P, T, L)), vrl(L, L2), op(P, T, L2).", k), Max: c18Max})
+		} else {
+			c.Steps = append(c.Steps, proto.Step{Query: fmt.Sprintf("verif_in(%d, G), call(G).", k), Max: c18Max})
+		}
 		dump(m.Queries[i+1])
 	}
 	for _, n := range probed {
